@@ -30,6 +30,9 @@ types, assume_specifications, spec functions, lemmas):
                                           back, kept iff the closure returns true, order of kept elements preserved):
                                           `let mut verif_kept = <container>::new(); for PAT in verif_it: RECV.iter() { if <name>(..) { verif_kept.push_back(*PAT); } } RECV = verif_kept;`
                                       //@lift.pre | <ghost text> goes before that loop, //@lift.post | <ghost text> at the end of its body.
+  //@okmap? <needle>                 (DESIGN 9.2 rule 15) the statement `E.ok().map(|p| CALL);` that starts with <needle> - value discarded - is read as
+                                      `if let Ok(p) = E { CALL; }` (std: Result::ok + Option::map call the closure exactly when E is Ok, with its payload);
+                                      skipped (recorded) when no such statement exists, e.g. because the code already uses `if let` / `let else`
   //@continue_to_else <ordinal>      in the body of the n-th loop (a `for`), `if COND { continue; } REST` becomes `if COND {} else { REST }`
                                       (Verus' for-loops do not support `continue`; same control flow) - DESIGN 9.2 rule 12
   //@loopbody <ordinal> | <text>     ghost/proof line placed right after the opening brace of the n-th loop's body (erased code)
@@ -263,6 +266,42 @@ def _lift_retain(body, sig, needle, name, container, extra, pre, post, fname):
     return body[:start] + loop + body[end + 1:], header, cbody, info
 
 
+def _okmap(body, needle, fname):
+    """Rule 15. Returns (new_body, info|None)."""
+    rx = re.compile(r'\s*'.join(re.escape(tok) for tok in needle.split()))
+    start = None
+    for j, d in rc.code_positions(body):
+        if rx.match(body, j) and (j == 0 or not (body[j - 1].isalnum() or body[j - 1] == '_')):
+            start = j; break
+    if start is None:
+        return body, None
+    depth, end = 0, None
+    for k, d in rc.code_positions(body, start):
+        c = body[k]
+        if c in '([{': depth += 1
+        elif c in ')]}': depth -= 1
+        elif c == ';' and depth == 0:
+            end = k; break
+    if end is None:
+        return body, None
+    stmt = body[start:end]
+    m = re.match(r'(?s)^(.*)\.\s*ok\s*\(\s*\)\s*\.\s*map\s*\(\s*\|\s*([A-Za-z_][A-Za-z0-9_]*)\s*\|\s*(.*)\)\s*$', stmt)
+    if not m:
+        return body, None
+    expr, pat, call = m.group(1).strip(), m.group(2), m.group(3).strip()
+    # the closure body must be one balanced expression without a block of its own
+    d = 0
+    for ch in call:
+        if ch in '([{': d += 1
+        elif ch in ')]}': d -= 1
+        if d < 0:
+            return body, None
+    if d != 0 or call.startswith('{'):
+        return body, None
+    new = 'if let Ok(%s) = %s { %s; }' % (pat, expr, call)
+    return body[:start] + new + body[end + 1:], {'fn': fname, 'from': re.sub(r'\s+', ' ', stmt) + ';', 'to': new}
+
+
 def _desugar_in_params(sig):
     """`In(pat) : In<T>` parameter => `verif_in : In<T>` + `let In(pat) = verif_in;` (Rust's own desugaring)."""
     lets = []
@@ -396,13 +435,16 @@ def expand(template_path, repo='/repo'):
             anchor = ' '.join(toks[:-1])
             clauses, loops, loopvars, ghosts, dropstmts, c2e, loopbodies, atend, befores = [], {}, {}, [], [], [], {}, [], []
             lifts, lifted_out = [], []
+            okmaps = []
             while i + 1 < len(tpl) and (tpl[i + 1].strip().startswith('//@|') or tpl[i + 1].strip().startswith('//@loop')
                                         or tpl[i + 1].strip().startswith('//@ghost') or tpl[i + 1].strip().startswith('//@dropstmt') or tpl[i + 1].strip().startswith('//@atend') or tpl[i + 1].strip().startswith('//@before')
-                                        or tpl[i + 1].strip().startswith('//@continue_to_else') or tpl[i + 1].strip().startswith('//@lift')):
+                                        or tpl[i + 1].strip().startswith('//@continue_to_else') or tpl[i + 1].strip().startswith('//@lift') or tpl[i + 1].strip().startswith('//@okmap')):
                 i += 1
                 t = tpl[i].strip()
                 if t.startswith('//@|'):
                     clauses.append('        ' + t[4:].strip())
+                elif t.startswith('//@okmap'):
+                    okmaps.append(t.split(None, 1)[1].strip())
                 elif t.startswith('//@liftretain'):
                     nd, nm, cont, extra = [x.strip() for x in t[len('//@liftretain'):].split('|', 3)]
                     lifts.append({'needle': nd, 'name': nm, 'container': cont, 'extra': extra, 'clauses': [], 'pre': [], 'post': []})
@@ -474,6 +516,12 @@ def expand(template_path, repo='/repo'):
             for needle, rep in dropstmts:
                 body, what = _replace_statement(body, needle, rep, name)
                 side.setdefault('replaced_statements', []).append({'fn': name, 'dropped_sha256': hashlib.sha256(what.encode()).hexdigest()[:16], 'dropped_head': re.sub(r'\s+', ' ', what)[:120], 'replacement': rep})
+            for nd in okmaps:
+                body, oinfo = _okmap(body, nd, name)
+                if oinfo:
+                    side.setdefault('normalized_statements', []).append(oinfo)
+                else:
+                    side.setdefault('skipped_normalizations', []).append('%s: okmap %s (statement not present in this form)' % (name, nd))
             for lf in lifts:
                 body, lh, lb, linfo = _lift_retain(body, sig, lf['needle'], lf['name'], lf['container'], lf['extra'], lf['pre'], lf['post'], name)
                 lifted_out.append('    #[verifier::exec_allows_no_decreases_clause]\n    ' + lh + '\n' + '\n'.join(lf['clauses']) + '\n    ' + lb)
